@@ -2,6 +2,7 @@ package lang
 
 import (
 	"fmt"
+	"sort"
 	"strconv"
 	"strings"
 )
@@ -178,6 +179,16 @@ func alias(x, y []*Cell) bool {
 	return cap(x) > 0 && cap(x) == cap(y) && &x[0:cap(x)][cap(x)-1] == &y[0:cap(y)][cap(y)-1]
 }
 
+// the keys of an object in sorted order
+func sortedKeys(obj map[string]*Cell) []string {
+	keys := make([]string, 0, len(obj))
+	for key := range obj {
+		keys = append(keys, key)
+	}
+	sort.Strings(keys)
+	return keys
+}
+
 func isSame(a *Value, b *Value) bool {
 	if a.Tag != b.Tag {
 		return false
@@ -229,8 +240,10 @@ func (v *Value) prettyStringInteral(rootValues []*Value, quote bool, checkCircul
 	case ValueObj:
 		var sb strings.Builder
 		sb.WriteByte('{')
+		// keys in sorted order: Go's map order is random, output must not be
 		index := 0
-		for key, value := range *v.Obj {
+		for _, key := range sortedKeys(*v.Obj) {
+			value := (*v.Obj)[key]
 			if index > 0 {
 				sb.WriteString(", ")
 			}
